@@ -4,9 +4,9 @@ from props._runcommon import RUN_TRUSTED, RUN_ASSUMPTIONS, PropRunStream
 from run import selftest as W
 
 PROPERTY = "C07"
-LEAN_MODULES = ["LccModel.Props.C07"]
-PROPS_FILES = ["LccModel/Props/C07.lean"]
-NAMESPACES = {"LccModel/Props/C07.lean": "LccModel.C07"}
+LEAN_MODULES = ["LccModel.Props.C07", "LccModel.Props.C07Run"]
+PROPS_FILES = ["LccModel/Props/C07.lean", "LccModel/Props/C07Run.lean"]
+NAMESPACES = {"LccModel/Props/C07.lean": "LccModel.C07", "LccModel/Props/C07Run.lean": "LccModel.C07Run"}
 DRIVER = "drivers/Run.lean"
 TRUSTED_BASE = RUN_TRUSTED + ["session stream: harness/props/_session.py (drivers/Session.lean)", "the stream grammar is stated twice, as the Lean acceptor Model/Grammar.lean and as the Python recogniser run/oracles.recognise; both are run on every fired stream and must agree"]
 ASSUMPTIONS = RUN_ASSUMPTIONS + ["the keyboard-interrupt path is excluded (finding D11 is registered under C08)"]
